@@ -14,7 +14,11 @@ focus = ''
 if rnd:
     k = (ord(rnd[0]) - ord('a')) % len(mechs)
     m = mechs[k]
-    if rnd[0] >= 'l':
+    if rnd[0] >= 'm':
+        k = (ord(rnd[0]) - ord('a') + 10) % len(mechs)
+        m = mechs[k]
+        focus = '\n  Focus: put your change in or around this mechanism of the implementation: %s (%s). Prefer a fault in how an ARGUMENT is converted before it is used: a fractional value where a whole number is expected (rounded the wrong way at exactly .5, truncated instead of rounded, rounded after instead of before a range check or an offset is applied, a negative fraction such as -0.5 or -0.4 handled differently from 0), a single or double where an integer is usual (a value such as 32767.4 or 255.5, a double with more precision than a single), an integer where a float is usual, an argument given as a variable or expression instead of a literal, or two arguments converted in the wrong order or with each other\'s type. With whole-number literal arguments everything must behave exactly as before.' % (m.get('name'), m.get('where'))
+    elif rnd[0] >= 'l':
         k = (ord(rnd[0]) - ord('a') + 9) % len(mechs)
         m = mechs[k]
         focus = '\n  Focus: put your change in or around this mechanism of the implementation: %s (%s). Prefer a fault that appears only when TWO instances of the same kind of object are in use at once and come to share something they should not (a buffer, a cursor or position, a cache entry or key, a counter, a flag, a saved value): two open files or file numbers, two arrays, two strings with the same content or one a substring of the other, two variables whose names differ only in sigil or length, two nested or consecutive loops on the same variable, two DEF FN functions with the same parameter name or one calling the other, two screen pages or viewports, two event traps, two DATA statements or lines, two programs chained or merged. One instance alone, or two that never overlap in time, must behave exactly as before.' % (m.get('name'), m.get('where'))
